@@ -60,8 +60,8 @@ def check_spec_objects(ctx, spec, start, N, part="objects"):
         for params in start.possible_parameters(n):
             key = tuple(params[k] for k in names)
             try:
-                got = list(spec.generate_objects_of_size(n, **params))
-                cnt = spec.count_objects_of_size(n, **params)
+                got = list(spec.generate_objects_of_size(n, **speccheck.any_order(params, n)))
+                cnt = spec.count_objects_of_size(n, **speccheck.any_order(params, n + 1))
             except NotImplementedError:
                 ctx.label("generation-refused")
                 return None
